@@ -48,6 +48,12 @@ def h17_ref(W, b, x, oshape, c, k, s):
 
 def f16_ref(W, b, x, a, fkind):
     """integrand family for C16: scalar / vector / tuple / constant outputs"""
+    if fkind == "identity":
+        return x              # the integrand hands back its own argument (no new tensor)
+    if fkind == "view":
+        return x.reshape(-1)[:1]      # a view of its argument
+    if fkind == "param":
+        return b              # a stored tensor itself: a constant integrand
     x = x.reshape(-1)     # the 1-D quadrature sampler hands over 0-d points
     d = x.shape[0]
     sc = torch.cos(a * (x * x).sum()) * (1.0 + 0.1 * (b[:d] * x).sum()) + 0.05 * (W[:d, :d] @ x).sum()
